@@ -64,6 +64,10 @@ type lockSite struct {
 	// walked) are followed, so that transactions opened in a helper are seen
 	autoInline string
 	autoType   string
+	// follow: same-package functions and methods of the receiver that the walk meets and that
+	// mention one of the known store-access functions are walked too (a validation moved into a
+	// helper stays visible)
+	follow bool
 }
 
 // functions that touch a store or a shared in-memory structure: a site must classify every call
@@ -77,6 +81,7 @@ var storeFuncs = map[string]bool{
 	"d.getStoreData": true, "d.putStoreData": true, "d.deleteStoreData": true,
 	"db.Put": true, "db.Delete": true, "db.Get": true, "txn.Set": true, "txn.Delete": true,
 	"d.cleaveIndex": true, "ChangeLabelIndex": true, "addToLabelIndex": true,
+	"addMergeToMapping": true, "addCleaveToMapping": true,
 }
 
 var annotationReads = map[string][]string{
@@ -142,14 +147,20 @@ var lockSites = []lockSite{
 			"DeleteLabelIndex(d, v, merged":   {pkg: "datatype/labelmap", fn: "DeleteLabelIndex", loc: map[string]string{"index": "merged"}, rename: map[string]string{"indexMu[shard]": "indexMu[merged]"}},
 			"DeleteLabelIndex(d, v, label":    {pkg: "datatype/labelmap", fn: "DeleteLabelIndex", loc: map[string]string{"index": "target"}, rename: indexRename},
 		},
-		reads:  map[string][]string{"GetLabelIndex/getCachedLabelIndex": {"index"}, "addToLabelIndex/getCachedLabelIndex": {"index"}},
-		writes: map[string][]string{"PutLabelIndex/putCachedLabelIndex": {"index"}, "DeleteLabelIndex/deleteCachedLabelIndex": {"index"}, "addToLabelIndex/putCachedLabelIndex": {"index"}},
+		reads: map[string][]string{"GetLabelIndex/getCachedLabelIndex": {"index"}, "addToLabelIndex/getCachedLabelIndex": {"index"}},
+		writes: map[string][]string{"PutLabelIndex/putCachedLabelIndex": {"index"}, "DeleteLabelIndex/deleteCachedLabelIndex": {"index"}, "addToLabelIndex/putCachedLabelIndex": {"index"},
+			"*/addMergeToMapping": {"aux:mapping"}},
 		choose: map[string]string{"idx == nil": "else"}, // PutLabelIndex with a nil index deletes: not the merge path
+		follow: true,
 	},
 	{name: "labelmap.CleaveLabel", pkg: "datatype/labelmap", fn: "Data.CleaveLabel",
-		inline: map[string]inlineSpec{"d.cleaveIndex": {pkg: "datatype/labelmap", fn: "Data.cleaveIndex", rename: indexRename}},
-		reads:  map[string][]string{"Data.cleaveIndex/getCachedLabelIndex": {"target"}},
-		writes: map[string][]string{"Data.cleaveIndex/putCachedLabelIndex(d, v, cidx": {"cleaved"}, "Data.cleaveIndex/putCachedLabelIndex(d, v, idx": {"target"}},
+		inline: map[string]inlineSpec{"d.cleaveIndex": {pkg: "datatype/labelmap", fn: "Data.cleaveIndex", rename: indexRename},
+			// any other read of the body's index on the way (a helper that validates the request)
+			"GetLabelIndex": {pkg: "datatype/labelmap", fn: "GetLabelIndex", loc: map[string]string{"index": "target"}, rename: indexRename}},
+		reads: map[string][]string{"Data.cleaveIndex/getCachedLabelIndex": {"target"}, "GetLabelIndex/getCachedLabelIndex": {"index"}},
+		writes: map[string][]string{"Data.cleaveIndex/putCachedLabelIndex(d, v, cidx": {"cleaved"}, "Data.cleaveIndex/putCachedLabelIndex(d, v, idx": {"target"},
+			"*/addCleaveToMapping": {"aux:mapping"}},
+		follow: true,
 	},
 	{name: "labelmap.ChangeLabelIndex", pkg: "datatype/labelmap", fn: "ChangeLabelIndex",
 		rename: indexRename,
@@ -342,6 +353,9 @@ func (w *lockWalker) stmt(s ast.Stmt, top bool) []lkEvent {
 	case *ast.IfStmt:
 		evs := w.stmt(x.Init, false)
 		evs = append(evs, w.expr(x.Cond)...)
+		if isRefusal(x) {
+			evs = append(evs, lkEvent{"Check", "", w.pos(x, "refuses: if "+types.ExprString(x.Cond))})
+		}
 		thenE := w.block(x.Body, false)
 		var elseE []lkEvent
 		switch e := x.Else.(type) {
@@ -433,6 +447,68 @@ func (w *lockWalker) stmt(s ast.Stmt, top bool) []lkEvent {
 	}
 	w.failAt(s, "statement of unknown shape %T", s)
 	return nil
+}
+
+// isRefusal: `if cond { ... fmt.Errorf / errors.New ...; return }` where cond is not the plain
+// propagation of an error value: the request is refused because of what it found.
+func isRefusal(x *ast.IfStmt) bool {
+	cond := types.ExprString(x.Cond)
+	if cond == "err != nil" || x.Body == nil || len(x.Body.List) == 0 {
+		return false
+	}
+	if _, ok := x.Body.List[len(x.Body.List)-1].(*ast.ReturnStmt); !ok {
+		return false
+	}
+	made := false
+	ast.Inspect(x.Body, func(n ast.Node) bool {
+		if c, ok := n.(*ast.CallExpr); ok {
+			switch types.ExprString(c.Fun) {
+			case "fmt.Errorf", "errors.New":
+				made = true
+			}
+		}
+		return true
+	})
+	return made
+}
+
+// siteCallNames: the call names the site classifies (inlined, read or written)
+func siteCallNames(site *lockSite) map[string]bool {
+	names := map[string]bool{}
+	add := func(k string) {
+		if i := strings.Index(k, "/"); i >= 0 && !strings.Contains(k[:i], "(") {
+			k = k[i+1:]
+		}
+		if i := strings.IndexAny(k, "(#"); i >= 0 {
+			k = k[:i]
+		}
+		if !strings.HasPrefix(k, "= ") && !strings.HasPrefix(k, "range ") {
+			names[k] = true
+		}
+	}
+	for k := range site.inline {
+		add(k)
+	}
+	for k := range site.reads {
+		add(k)
+	}
+	for k := range site.writes {
+		add(k)
+	}
+	return names
+}
+
+// mentionsStore: does the function body call one of the functions the site classifies?
+func mentionsStore(site *lockSite, fd *ast.FuncDecl) bool {
+	names := siteCallNames(site)
+	found := false
+	ast.Inspect(fd.Body, func(n ast.Node) bool {
+		if c, ok := n.(*ast.CallExpr); ok && names[types.ExprString(c.Fun)] {
+			found = true
+		}
+		return !found
+	})
+	return found
 }
 
 // expr collects the events of the calls inside e, arguments before the call itself.
@@ -611,6 +687,21 @@ func (w *lockWalker) call(c *ast.CallExpr) []lkEvent {
 	if w.site.ignore[name] {
 		return nil
 	}
+	if w.site.follow && !storeFuncs[name] {
+		key := ""
+		switch f := c.Fun.(type) {
+		case *ast.Ident:
+			key = f.Name
+		case *ast.SelectorExpr:
+			if id, ok := f.X.(*ast.Ident); ok && id.Name == "d" {
+				key = "Data." + f.Sel.Name
+			}
+		}
+		if fd, ok := w.p.funcs[key]; ok && key != "" && fd.Body != nil && mentionsStore(w.site, fd) {
+			rel, _ := filepath.Rel(*repo, w.p.dir)
+			return w.inlineCall(c, inlineSpec{pkg: filepath.ToSlash(rel), fn: key})
+		}
+	}
 	if storeFuncs[name] {
 		w.failAt(c, "call of store-access function %s (in %s) is not classified for this site", name, w.fn)
 	}
@@ -711,6 +802,8 @@ func genLocks() {
 	b.WriteString("Inductive gev :=\n| GLock (m : string)\n| GUnlock (m : string)\n| GRLock (m : string)\n| GRUnlock (m : string)\n| GRead (l : string)\n| GWrite (l : string)\n| GYield (site : string).\n\n")
 	b.WriteString("Record gsite := mkSite { gs_name : string; gs_func : string; gs_events : list gev; gs_cover : string }.\n\n")
 	var names []string
+	var siteChecks [][4]string
+	var siteOrders [][2]string
 	for i := range lockSites {
 		site := &lockSites[i]
 		p := loadPkg(site.pkg)
@@ -725,6 +818,17 @@ func genLocks() {
 		}
 		evs := w.block(fd.Body, true)
 		evs = append(evs, w.defers...)
+		siteChecks = append(siteChecks, checkCounts(site.name, evs)...)
+		siteOrders = append(siteOrders, [2]string{site.name, writeOrder(evs)})
+		// refusing checks and writes of data that have their own lock and are not part of the
+		// site's read-modify-write (the supervoxel mapping) appear in the tables below only
+		var shown []lkEvent
+		for _, e := range evs {
+			if e.kind != "Check" && !strings.HasPrefix(e.arg, "aux:") {
+				shown = append(shown, e)
+			}
+		}
+		evs = shown
 		cover, err := lockVerdict(evs)
 		if err != "" {
 			fail("gen_locks: site %s: %s", site.name, err)
@@ -762,6 +866,26 @@ func genLocks() {
 		fmt.Fprintf(&b, "  (%s, %s, %s)%s (* %s *)\n", coqStr(u.fn), coqStr(u.family), coqStr(u.key), sep, u.pos)
 	}
 	b.WriteString("].\n")
+	b.WriteString("\n(* per site: the locations it writes, in the order of the writes (consecutive repeats dropped) *)\n")
+	b.WriteString("Definition write_order : list (string * list string) := [\n")
+	for i, o := range siteOrders {
+		sep := ";"
+		if i == len(siteOrders)-1 {
+			sep = ""
+		}
+		fmt.Fprintf(&b, "  (%s, [%s])%s\n", coqStr(o[0]), o[1], sep)
+	}
+	b.WriteString("].\n")
+	b.WriteString("\n(* per site and location it writes: the refusing checks (if ... { return an error made here }) that follow a\n   read of the location and precede its last write: (site, location, checks outside the exclusive critical\n   section of that write, checks inside it) *)\n")
+	b.WriteString("Definition site_checks : list (string * string * nat * nat) := [\n")
+	for i, c := range siteChecks {
+		sep := ";"
+		if i == len(siteChecks)-1 {
+			sep = ""
+		}
+		fmt.Fprintf(&b, "  (%s, %s, %s, %s)%s\n", coqStr(c[0]), coqStr(c[1]), c[2], c[3], sep)
+	}
+	b.WriteString("]%nat.\n")
 	b.WriteString("\n(* storage/badger, versioned path of the single-key mutations: (function, write transactions, read-only\n   transactions), helper methods followed *)\n")
 	b.WriteString("Definition badger_txns : list (string * nat * nat) := [")
 	for i, t := range badgerTxns() {
@@ -1011,6 +1135,82 @@ func badgerTxns() [][3]string {
 			}
 		}
 		out = append(out, [3]string{fn, fmt.Sprint(wr), fmt.Sprint(ro)})
+	}
+	return out
+}
+
+// writeOrder: the written locations in order, consecutive repeats dropped, as a Coq list body
+func writeOrder(evs []lkEvent) string {
+	var ws []string
+	for _, e := range evs {
+		arg := coqStr(strings.TrimPrefix(e.arg, "aux:"))
+		if e.kind == "Write" && (len(ws) == 0 || ws[len(ws)-1] != arg) {
+			ws = append(ws, arg)
+		}
+	}
+	return strings.Join(ws, "; ")
+}
+
+// checkCounts: a Check belongs to the location of the most recent Read before it.  For every
+// location the site writes, the checks on it that precede its last write are counted inside or
+// outside the exclusive Lock..Unlock interval that contains that write.
+func checkCounts(site string, evs []lkEvent) [][4]string {
+	owner := make([]string, len(evs))
+	last := ""
+	for i, e := range evs {
+		if e.kind == "Read" {
+			last = e.arg
+		}
+		if e.kind == "Check" {
+			owner[i] = last
+		}
+	}
+	var locs []string
+	lastWrite := map[string]int{}
+	for i, e := range evs {
+		if e.kind == "Write" && !strings.HasPrefix(e.arg, "aux:") {
+			if _, ok := lastWrite[e.arg]; !ok {
+				locs = append(locs, e.arg)
+			}
+			lastWrite[e.arg] = i
+		}
+	}
+	var out [][4]string
+	for _, loc := range locs {
+		wi := lastWrite[loc]
+		// innermost exclusive interval around wi
+		lo, hi := -1, -1
+		for i := wi; i >= 0 && lo < 0; i-- {
+			if evs[i].kind == "Lock" {
+				// its matching Unlock
+				depth := 0
+				for j := i + 1; j < len(evs); j++ {
+					if evs[j].kind == "Lock" && evs[j].arg == evs[i].arg {
+						depth++
+					}
+					if evs[j].kind == "Unlock" && evs[j].arg == evs[i].arg {
+						if depth == 0 {
+							if j > wi {
+								lo, hi = i, j
+							}
+							break
+						}
+						depth--
+					}
+				}
+			}
+		}
+		inside, outside := 0, 0
+		for i := 0; i < wi; i++ {
+			if evs[i].kind == "Check" && owner[i] == loc {
+				if lo >= 0 && i > lo && i < hi {
+					inside++
+				} else {
+					outside++
+				}
+			}
+		}
+		out = append(out, [4]string{site, loc, fmt.Sprint(outside), fmt.Sprint(inside)})
 	}
 	return out
 }
